@@ -5,6 +5,7 @@ import FemtoVerif.Proofs.Session
 import FemtoVerif.Proofs.Good
 import FemtoVerif.Proofs.WriteLemmas
 import FemtoVerif.Proofs.Rot
+import FemtoVerif.Proofs.Vars
 import FemtoVerif.Spec.WF
 import FemtoVerif.Gen.Data
 
@@ -507,6 +508,25 @@ theorem shipped_headers_rotation_off : ∀ h ∈ Femto.Gen.headers, scanRot h.2.
 example : scanRot (flattenStmts (session { header := Femto.Gen.header_uwe, aeroAngle := 30 }
     [.axisRot (some 12) [.rep 3 [.dwell (some 1), .raise]], .goOrigin]).1) false = false :=
   session_rotation_off _ _ (by decide)
+
+/-! ### loop variables -/
+
+/-- **Loop variables are declared.**  In program order every FOR variable of the written file has been declared by a DVAR
+line earlier in the text — for every configuration and every sequence of operations, with declarations made anywhere
+(they are hoisted to the top of the file), any nesting, and wherever an operation was rejected or the user's code raised:
+`for_loop` refuses a variable that has not been declared, and nothing else the compiler emits declares, assigns or loops
+over a variable. -/
+theorem session_vars_declared (cfg : Cfg) (ops : List Op) (hh : headerVarFree cfg.header = true) :
+    scanVars (flattenStmts (session cfg ops).1) [] = true :=
+  session_vars cfg ops hh
+
+/-- the shipped headers neither declare nor use variables (hypothesis of `session_vars_declared`) -/
+theorem shipped_headers_var_free : ∀ h ∈ Femto.Gen.headers, headerVarFree h.2.2 = true := by decide
+
+/-- non-vacuity: a FOR over a declared variable inside a REPEAT, an undeclared one refused (nothing emitted for it) -/
+example : scanVars (flattenStmts (session { header := Femto.Gen.header_uwe }
+    [.dvar ["K"], .rep 2 [.forr "k" 3 [.dwell (some 1)]], .forr "j" 2 [.dwell (some 1)]]).1) [] = true :=
+  session_vars_declared _ _ (by decide)
 
 /-! ### the shipped headers -/
 
